@@ -1,4 +1,4 @@
 ----------------------------- MODULE TotalityMC -----------------------------
 EXTENDS Totality, Json, IOUtils, CSV
-Emit == state = "called" => CSVWrite("%1$s", <<ToJson([w |-> word])>>, IOEnv.VERIF_OUT)
+Emit == state = "called" => CSVWrite("%1$s", <<ToJson(word)>>, IOEnv.VERIF_OUT)
 =============================================================================
